@@ -53,7 +53,7 @@ def random_threshold(rng):
     if r < 0.10:
         # a few 1e-5 next to the 4-decimal rounding of an attainable score (more than 4 decimals)
         q = rng.randint(2, 12)
-        v = round(rng.randint(1, q) / float(q), 4) + rng.choice([1e-5, 2e-5, 4e-5, -1e-5, -4e-5, 5e-5])
+        v = round(rng.randint(1, q) / float(q), 4) + rng.choice([1e-5, 2e-5, 4e-5, -1e-5, -4e-5, 5e-5, 4e-6, 3e-6, -4e-6])
         return max(1e-6, min(1.0, v))
     r = rng.random()
     if r < 0.35:
@@ -438,6 +438,11 @@ TOKENIZERS = [
     {'kind': 'qgram', 'q': 2, 'padding': False}, {'kind': 'qgram', 'q': 3, 'padding': False},
     {'kind': 'qgram', 'q': 1, 'padding': True},
     {'kind': 'alpha'}, {'kind': 'alnum'},
+    {'kind': 'ws', 'user': 'lower'}, {'kind': 'delim', 'delims': [','], 'user': 'strip'},   # user subclasses
+    {'kind': 'qgram', 'q': 2, 'padding': True, 'user': 'lower'}, {'kind': 'ws', 'user': 'memo'},
+    # pad characters other than '#' and '$' (the data may contain '#', '$', '^', '!')
+    {'kind': 'qgram', 'q': 2, 'padding': True, 'prefix_pad': '^', 'suffix_pad': '!'},
+    {'kind': 'qgram', 'q': 3, 'padding': True, 'prefix_pad': ' ', 'suffix_pad': ' '},
 ]
 
 UNI = ['é', 'ß', '日本', 'ñ', 'Ω', '𝔘', 'ü', 'ж', 'e\u0301', 'İ', 'ǆ', 'ﬁ']      # incl. NFD 'é', case-folding oddities
@@ -450,10 +455,21 @@ def random_tokenizer(rng, qgram_only=False, allow_bag=True):
     return spec
 
 
+# pairs of DISTINCT tokens that some normalisation identifies: canonical equivalence (NFC / NFD, the
+# OHM / KELVIN / ANGSTROM signs), compatibility forms, trailing NUL characters (numpy's fixed-width
+# strings strip them), case folding beyond ASCII, characters outside the BMP
+CONFUSABLE = [('caf\u00e9', 'cafe\u0301'), ('\u2126', '\u03a9'), ('\u212b', '\u00c5'), ('K', '\u212a'),
+              ('x', 'x\x00'), ('ab', 'ab\x00\x00'), ('fi', '\ufb01'), ('a', '\uff41'), ('ss', '\u00df'),
+              ('i', '\u0131'), ('X', '\U0001d4b3'), ('e', 'e\u200b'), ('1', '\u00b9'), ('w\x00', 'z\x00')]
+
+
 def _vocab(rng, size, unicode_rate=0.1):
     out = []
     for i in range(size):
         r = rng.random()
+        if r < 0.05:
+            out.extend(rng.choice(CONFUSABLE))
+            continue
         if r < unicode_rate:
             out.append(rng.choice(UNI) + str(i))
         elif r < unicode_rate + 0.12 and out:
@@ -518,7 +534,7 @@ def random_value(rng, tok, vocab, zipf, max_tokens):
         return rng.choice([' ', '  ', ' \t'])          # whitespace-only is NOT empty for q-grams
     if r < 0.14 and not tok.get('padding', True):
         return ''.join(rng.choice('ab') for _ in range(rng.randint(1, max(1, q - 1))))  # < q chars
-    alpha = rng.choice(['ab', 'abc', 'abcde', 'ab#$', 'abé日', 'aAbB', 'ab '])
+    alpha = rng.choice(['ab', 'abc', 'abcde', 'ab#$', 'abé日', 'aAbB', 'ab ', 'ab\x00', 'e\u0301\u00e9', 'K\u212aa', 'a#$^!'])
     n = rng.randint(1, max(2, max_tokens))
     return ''.join(rng.choice(alpha) for _ in range(n))
 
@@ -543,7 +559,7 @@ def random_table_pair(rng, tok=None, max_rows=12, missing=0.1, dup_rate=0.2, ext
             lcols_extra, rcols_extra = [], []
         elif r < 0.24:
             lcols_extra, rcols_extra = [rng.choice(lcols_extra)], [rng.choice(rcols_extra)]
-    key_kind = key_kind or rng.choice(['int', 'int_shuffled', 'str', 'int_sparse', 'numstr', 'float', 'neg', 'mixed', 'bigint'])
+    key_kind = key_kind or rng.choice(['int', 'int_shuffled', 'str', 'int_sparse', 'numstr', 'float', 'neg', 'mixed', 'bigint', 'samehash'])
     pool_vals = [random_value(rng, tok, vocab, zipf, max_tokens) for _ in range(6)]
     for side, extra in (('l', lcols_extra), ('r', rcols_extra)):
         n = rng.choice([0, 1, 1, 2, 3, 5, 8, max_rows]) if rng.random() < 0.5 else \
@@ -577,6 +593,10 @@ def random_table_pair(rng, tok=None, max_rows=12, missing=0.1, dup_rate=0.2, ext
             keys = rng.sample(pool, n) if n <= len(pool) else list(range(n))
         elif key_kind == 'neg':
             keys = [-k for k in rng.sample(range(1, 10 ** 6), n)]
+        elif key_kind == 'samehash':    # different ids with the same hash(): -1 / -2, k / k + 2**61 - 1
+            pool = [-1, -2, 0, 1, 2, 3, 5, 2 ** 61 - 1, 2 ** 61, 2 ** 61 + 1, 2 ** 61 + 2, 2 ** 61 + 4,
+                    -(2 ** 61), -(2 ** 61) - 1, 7, 2 ** 61 + 6]
+            keys = rng.sample(pool, n) if n <= len(pool) else list(range(n))
         else:
             keys = ['%s%03d' % (side.upper(), k) for k in rng.sample(range(1000), n)]
         cols = [side + 'id', side + 'attr'] + list(extra)
@@ -613,7 +633,19 @@ def random_table_pair(rng, tok=None, max_rows=12, missing=0.1, dup_rate=0.2, ext
                     cols.append(cw)
                     data[cw] = [w + i for i in range(n)]
                     dtypes[cw] = 'int64'
-        ik = index_kind or rng.choice(['range', 'range', 'shuffled', 'str', 'offset', 'dup', 'const', 'multi', 'float'])
+        if extra and rng.random() < 0.08:
+            # object cells that are not scalars for every tool: Decimal / Fraction (not exactly
+            # representable as floats), tuples of length 1 and 2
+            import decimal
+            import fractions
+            c = side + 'x_obj_str'
+            cols.insert(rng.randint(0, len(cols)), c)
+            pool = [decimal.Decimal('1.10'), decimal.Decimal('0.1'), fractions.Fraction(1, 3), ('x',), ('a', 'b'),
+                    (1, 2), decimal.Decimal('2'), fractions.Fraction(7, 2), (), None]
+            data[c] = [rng.choice(pool) for _ in range(n)]
+            dtypes[c] = 'object'
+        ik = index_kind or rng.choice(['range', 'range', 'shuffled', 'str', 'offset', 'dup', 'const', 'multi', 'float',
+                                       'keyname'])
         if ik == 'range':
             index = None
         elif ik == 'dup':       # concat-style: labels restart (non-unique index)
@@ -630,9 +662,13 @@ def random_table_pair(rng, tok=None, max_rows=12, missing=0.1, dup_rate=0.2, ext
             index = [['g%d' % (i % 2), i // 2] for i in range(n)]
         elif ik == 'float':
             index = [i + 0.5 for i in range(n)]
+        elif ik == 'keyname':   # A.set_index('id', drop=False): the row index is NAMED like the key column
+            index = list(keys)
         else:
             index = ['r%d' % i for i in rng.sample(range(10 * n + 1), n)]
         out.append({'cols': cols, 'data': data, 'index': index, 'dtypes': dtypes})
+        if ik == 'keyname':
+            out[-1]['index_name'] = side + 'id'
     return out[0], out[1], tok
 
 
@@ -705,7 +741,14 @@ def random_join_call(rng, api=None, tok=None, n_jobs_pool=(1, 1, 1, 2, 3), colli
         call['n_jobs_as'] = 'numpy'
     if call['threshold'] == 1.0 and rng.random() < 0.5:
         call['threshold'] = 1          # an int is a valid threshold too
-    if collide and rng.random() < 0.04:
+    if rng.random() < 0.05 and 'colliding_labels' not in call:
+        # the join attribute of one side (or both) is also its key attribute (string keys only)
+        for spec, side in rng.choice([((L, 'l'),), ((R, 'r'),), ((L, 'l'), (R, 'r'))]):
+            keys = spec['data'][side + 'id']
+            if keys and all(isinstance(k, str) for k in keys):
+                call[side + '_attr'] = side + 'id'
+                call['join_on_key'] = True
+    if collide and rng.random() < 0.04 and not call.get('join_on_key'):
         # both tables call their key 'id' and the caller passes the same prefix for both sides: two
         # output columns carry the same label; the documented order (left key, then right key) is
         # what tells them apart
